@@ -184,6 +184,36 @@ Proof.
   split; reflexivity.
 Qed.
 
+Lemma mem_string_In x l : mem_string x l = true <-> In x l.
+Proof.
+  unfold mem_string. rewrite existsb_exists. split.
+  - intros (y & Hy & E). apply String.eqb_eq in E. subst. exact Hy.
+  - intros H. exists x. split; [exact H|apply String.eqb_refl].
+Qed.
+
+(* a warning is issued for exactly the requested names that are not documented flag names *)
+Lemma unknown_warned a n :
+  In n (unknown_names flag_names a) <-> In n (selection_to_list a doc_names) /\ ~ In n doc_names.
+Proof.
+  unfold unknown_names. rewrite names_are_documented, filter_In.
+  split; intros [A B]; (split; [exact A|]).
+  - intro H. apply mem_string_In in H. rewrite H in B. discriminate B.
+  - destruct (mem_string n doc_names) eqn:E; [|reflexivity]. exfalso. apply B. apply mem_string_In. exact E.
+Qed.
+
+Lemma no_warning_iff a :
+  unknown_names flag_names a = [] <-> forall n, In n (selection_to_list a doc_names) -> In n doc_names.
+Proof.
+  split.
+  - intros E n Hn. destruct (mem_string n doc_names) eqn:M; [apply mem_string_In; exact M|].
+    exfalso. assert (In n (unknown_names flag_names a)) as H.
+    { apply unknown_warned. split; [exact Hn|]. intro H. apply mem_string_In in H. congruence. }
+    rewrite E in H. exact H.
+  - intros H. destruct (unknown_names flag_names a) as [|n t] eqn:E; [reflexivity|].
+    exfalso. assert (In n (unknown_names flag_names a)) as Hn by (rewrite E; left; reflexivity).
+    apply unknown_warned in Hn. destruct Hn as [A B]. exact (B (H n A)).
+Qed.
+
 Lemma bits_consistent :
   forallb (fun p => match index_of (fst p) flag_names with
                     | Some i => Z.eqb (Z.of_nat i) (snd p) | None => false end) flag_bits = true
